@@ -42,11 +42,30 @@ impl Tally {
     }
 }
 
+thread_local! {
+    /// attributes of the two halves of a rule that the evaluation must carry through but not depend on: 0 = (standard "AAA",
+    /// daylight "BBB"); 1 = both flagged standard; 2 = both flagged daylight; 3 = flags swapped; 4 = same designation; 5 = no
+    /// designation on the standard half and a 7-letter one on the daylight half
+    pub static TYPE_VARIANT: std::cell::Cell<u8> = const { std::cell::Cell::new(0) };
+}
+pub const TYPE_VARIANTS: u8 = 6;
+
 pub fn std_type(r: &RuleSpec) -> MType {
-    MType::new(r.std_off as i32, false, Some("AAA"))
+    match TYPE_VARIANT.with(|v| v.get()) {
+        1 => MType::new(r.std_off as i32, false, Some("AAA")),
+        2 | 3 => MType::new(r.std_off as i32, true, Some("AAA")),
+        5 => MType::new(r.std_off as i32, false, None),
+        _ => MType::new(r.std_off as i32, false, Some("AAA")),
+    }
 }
 pub fn dst_type(r: &RuleSpec) -> MType {
-    MType::new(r.dst_off as i32, true, Some("BBB"))
+    match TYPE_VARIANT.with(|v| v.get()) {
+        1 | 3 => MType::new(r.dst_off as i32, false, Some("BBB")),
+        2 => MType::new(r.dst_off as i32, true, Some("BBB")),
+        4 => MType::new(r.dst_off as i32, true, Some("AAA")),
+        5 => MType::new(r.dst_off as i32, true, Some("BBBBBBB")),
+        _ => MType::new(r.dst_off as i32, true, Some("BBB")),
+    }
 }
 
 /// leaf of the model's case analysis a probe falls into: class x region of the UTC year x expected answer
@@ -65,6 +84,24 @@ fn leaf(class: Class, tl: &Timeline, t: i64, y: i64, exp: bool) -> usize {
 
 /// all probes of one rule over years y_from..y_to; returns false if the rule was not explored
 pub fn check_rule(tabs: &Tables, r: &RuleSpec, y_from: i64, y_to: i64, rec: &Recorder, sweep: &str, tl: &mut Tally, kf1_open: bool) {
+    check_rule_variant(tabs, r, y_from, y_to, rec, sweep, tl, kf1_open);
+    // the same rule with the other attribute combinations of its two halves (flags, designations): all of them when the two
+    // offsets are equal (the halves then differ in those attributes only), otherwise one of them in rotation
+    let h = (r.start_time ^ r.end_time ^ r.std_off).unsigned_abs() as u8;
+    for v in 1..TYPE_VARIANTS {
+        if r.std_off == r.dst_off || (h % 16 == 0 && h / 16 % (TYPE_VARIANTS - 1) + 1 == v) {
+            TYPE_VARIANT.with(|c| c.set(v));
+            let mut t2 = Tally::default();
+            check_rule_variant(tabs, r, y_from, y_to.min(y_from + 27), rec, sweep, &mut t2, kf1_open);
+            TYPE_VARIANT.with(|c| c.set(0));
+            tl.evals += t2.evals;
+            tl.kf1 += t2.kf1;
+            tl.digest = tl.digest.wrapping_add(t2.digest);
+        }
+    }
+}
+
+fn check_rule_variant(tabs: &Tables, r: &RuleSpec, y_from: i64, y_to: i64, rec: &Recorder, sweep: &str, tl: &mut Tally, kf1_open: bool) {
     let (ms, md) = (std_type(r), dst_type(r));
     let alt = match alt(r, &ms, &md) {
         Ok(a) => a,
@@ -106,7 +143,7 @@ pub fn check_rule(tabs: &Tables, r: &RuleSpec, y_from: i64, y_to: i64, rec: &Rec
                 tl.kf1 += 1;
                 rec.known_hit("KF1", || json!({"rule": spec_json(r), "tz": tz_string(r), "t": t, "utc_year": uy, "model_is_dst": exp}));
             } else {
-                rec.violation(sweep, json!({"kind":"rule","rule":spec_json(r),"t":t,"year":y}), json!({"is_dst": exp, "class": format!("{class:?}"), "utc_year": uy}), json!(format!("{:?}", got.map(type_json))));
+                rec.violation(sweep, json!({"kind":"rule","rule":spec_json(r),"t":t,"year":y,"type_variant":TYPE_VARIANT.with(|c| c.get())}), json!({"is_dst": exp, "class": format!("{class:?}"), "utc_year": uy}), json!(format!("{:?}", got.map(type_json))));
             }
         }
     };
